@@ -1,3 +1,4 @@
+import NanoVerif.Model.Num
 import NanoVerif.Generated.Constants
 import NanoVerif.Generated.Inventory
 /-
@@ -62,5 +63,35 @@ def validate (c : VCfg) : Except VErr Unit :=
       else if isOtSvg c.fmt then .error .vfOtSvg
       else .ok ()
     else .ok ()
+
+/-! `FontConfig.default()` (config.py:243) and `MasterConfig.pos` -/
+
+
+inductive PosErr | notOne   -- `MasterConfig.pos`: "Unable to find 1 position for <axis>"
+deriving Repr, DecidableEq
+
+/-- `MasterConfig.pos(axisTag)` -/
+def posOf (position : List (String × Q)) (tag : String) : Except PosErr Q :=
+  match position.filter (fun p => p.1 == tag) with
+  | [p] => .ok p.2
+  | _ => .error .notOne
+
+/-- `all(master.pos(axis.axisTag) == axis.default for axis in self.axes)` — stops at the first axis that differs, raises at the first axis the
+master has not exactly one position for -/
+def atDefault (position : List (String × Q)) : List (String × Q) → Except PosErr Bool
+  | [] => .ok true
+  | (tag, d) :: axes =>
+    match posOf position tag with
+    | .error e => .error e
+    | .ok v => if v = d then atDefault position axes else .ok false
+
+/-- `FontConfig.default()`: index of the first master at the default on EVERY axis; `none` = "Must have a default master" -/
+def defaultMaster (axes : List (String × Q)) : List (List (String × Q)) → Nat → Except PosErr (Option Nat)
+  | [], _ => .ok none
+  | m :: ms, i =>
+    match atDefault m axes with
+    | .error e => .error e
+    | .ok true => .ok (some i)
+    | .ok false => defaultMaster axes ms (i + 1)
 
 end NanoVerif.Cfg
